@@ -180,7 +180,7 @@ def main():
                         ks = list(range(1, n + 1))
                         # quick: 160 sampled switch points per pair - except in the warm scenario, where the window of a race on something
                         # remembered from earlier calls is one line wide: every switch point of the short re-printed values
-                        cap = 2500 if (name == 'warm' and ia == 0 and ib in (1, 3)) else 1200 if (name, ia, ib) in thread_scenarios.DENSE else 160
+                        cap = 2500 if (name == 'warm' and ia == 0 and ib == 1) else 1200 if (name, ia, ib) in thread_scenarios.DENSE else 160
                         if tier == 'quick' and len(ks) > cap:
                             ks = sorted(rng.sample(ks, cap))
                         elif tier != 'quick' and len(ks) > 6000:
